@@ -715,17 +715,22 @@ theorem emitRst (h : AccInv k) (l r : SockAddr) (s : Seg) : AccInv (k.emitRst l 
 
 theorem abortWith (cfg : Cfg) (h : AccInv k) (fd : Nat) (b : Bool) : AccInv (Kernel.abortWith cfg k fd b) := by
   unfold Kernel.abortWith
-  dsimp only
   split
   · exact h
   · rename_i s hs
     split
     · exact h
-    · refine h.setSock hs rfl ?_
-      intro _ t' ht'
-      simp only [Option.some.injEq] at ht'
-      subst ht'
-      exact Tcb.nsr_abort _ _
+    · split
+      · refine h.setSock hs rfl ?_
+        intro _ t' ht'
+        simp only [Option.some.injEq] at ht'
+        subst ht'
+        simp
+      · refine h.setSock hs rfl ?_
+        intro _ t' ht'
+        simp only [Option.some.injEq] at ht'
+        subst ht'
+        exact Tcb.nsr_abort _ _
 
 theorem abortOrReap (cfg : Cfg) (h : AccInv k) (fd : Nat) (b : Bool) : AccInv (Kernel.abortOrReap cfg k fd b) := by
   unfold Kernel.abortOrReap
